@@ -1,5 +1,5 @@
 SPECIFICATION TraceSpec
-CONSTANTS BitSpace = 0 Honest = TRUE MaxV = 0 Below = 0 WidthOnly = FALSE
+CONSTANTS BitSpace = 0 Honest = TRUE MaxV = 0 Below = 0 WidthOnly = FALSE RefBy = "format"
 CONSTANTS Nodes <- SessionNodes Names = {} Formats = {} CacheBy = "schema" Shared = TRUE
 INVARIANT TraceAccepted
 INVARIANT ExactTypeOK
